@@ -204,7 +204,8 @@ Section RoundTrip.
     Lemma conv_def_inv p1 p2 d : inv_on p1 p2 ->
       inv_on (conv_def leaf1 rec1 p1 d) (conv_def leaf2 rec2 p2 d).
     Proof.
-      intros Hp v x HQ H. destruct d as [g fs|g vs]; cbn [conv_def] in *.
+      intros Hp v x HQ H. unfold conv_def in *. destruct (has_converted d); [|discriminate].
+      destruct d as [g fs|g vs].
       - destruct fs; [discriminate| |]; exact (conv_fields_inv p1 p2 _ Hp v x HQ H).
       - destruct v; try discriminate.
         destruct (conv_variants_inv p1 p2 vs vn Hp v x HQ H) as (b' & -> & Hb'). exact Hb'.
@@ -394,7 +395,7 @@ Section Leaves.
 
     Lemma conv_def_good p d : (forall v, good v (p v)) -> forall v, good v (conv_def leaf rec p d v).
     Proof.
-      intros Hp v. destruct d as [g fs|g vs]; cbn [conv_def].
+      intros Hp v. unfold conv_def. destruct (has_converted d); [|exact I]. destruct d as [g fs|g vs].
       - destruct fs; [exact I| |]; apply conv_fields_good; exact Hp.
       - destruct v; try exact I. apply conv_variants_good. exact Hp.
     Qed.
@@ -512,7 +513,8 @@ Section Total.
     Lemma conv_def_total p h d : sup_def E d = true -> total p h ->
       total (conv_def leaf rec p d) (has_def hrec h d).
     Proof.
-      intros Hs Hp v Hv Hm. destruct d as [g fs|g vs]; cbn [sup_def conv_def has_def] in *.
+      intros Hs Hp v Hv Hm. unfold sup_def, conv_def in *. apply andb_true_iff in Hs. destruct Hs as [Hc Hs].
+      rewrite Hc. destruct d as [g fs|g vs]; cbn [has_def] in *.
       - destruct fs; [discriminate| |]; exact (conv_fields_total g p h _ Hs Hp v Hv Hm).
       - destruct v; try discriminate. exact (conv_variants_total g p h vs vn Hs Hp v Hv Hm).
     Qed.
@@ -576,7 +578,8 @@ Theorem derive_into_tuple_struct_fieldwise : forall E g fs targ vs x ids,
     forall i f v, nth_error fs i = Some f -> nth_error vs i = Some v ->
       exists d, nth_error ds i = Some d /\ field_conv_into E targ ids f v = Ok d.
 Proof.
-  intros E g fs targ vs x ids H. unfold derive_into in H. cbn [conv_def conv_fields] in H.
+  intros E g fs targ vs x ids H. unfold derive_into, conv_def in H.
+  destruct (has_converted _); [|discriminate]. cbn [conv_fields] in H.
   apply rmap_ok in H. destruct H as (ds & Hds & ->). exists ds. split; [reflexivity|].
   exact (zipM_nth _ _ _ _ Hds).
 Qed.
@@ -588,7 +591,8 @@ Theorem derive_into_named_struct_fieldwise : forall E g fs targ vs x ids,
       fst nv = fname f /\
       exists d, nth_error ds i = Some (fname f, d) /\ field_conv_into E targ ids f (snd nv) = Ok d.
 Proof.
-  intros E g fs targ vs x ids H. unfold derive_into in H. cbn [conv_def conv_fields] in H.
+  intros E g fs targ vs x ids H. unfold derive_into, conv_def in H.
+  destruct (has_converted _); [|discriminate]. cbn [conv_fields] in H.
   apply rmap_ok in H. destruct H as (ds & Hds & ->). exists ds. split; [reflexivity|].
   destruct (zipM_nth _ _ _ _ Hds) as (L1 & L2 & Hn). repeat split; auto.
   - destruct (Hn i f nv H H0) as (c & _ & Hc). destruct (N.eqb_spec (fst nv) (fname f)); [assumption|discriminate].
@@ -602,7 +606,8 @@ Theorem derive_into_enum_by_name : forall E g ws targ vn body x ids,
   exists w body', find (fun w => N.eqb (vname w) vn) ws = Some w /\ x = Var vn body' /\
     conv_fields (into_leaf ids) (conv_env (into_leaf ids) E) (param_conv (into_leaf ids) E targ) (vfields w) body = Ok body'.
 Proof.
-  intros E g ws targ vn body x ids H. unfold derive_into in H. cbn [conv_def] in H.
+  intros E g ws targ vn body x ids H. unfold derive_into, conv_def in H.
+  destruct (has_converted _); [|discriminate].
   induction ws as [|w ws IH]; cbn [conv_variants find] in *; [discriminate|].
   destruct (N.eqb (vname w) vn).
   - apply rmap_ok in H. destruct H as (b' & Hb' & ->). eauto.
